@@ -9,7 +9,7 @@
      kernel     \det M != 0 -> M is a unit -> M *m v = 0 implies v = 0           (unitmxE, mulKmx). *)
 From Coq Require Import List Arith Lia Ring_theory Field_theory.
 From OV Require Import Base.Panic Base.Arith Model.Vector Model.Matrix Model.Banded
-  Proofs.Banded Proofs.BandedLU Proofs.BandedComplete Proofs.BandedDet Proofs.BandedDet2 Model.Solve Proofs.LUPrim Proofs.LUTab Bridge.Det.
+  Proofs.Banded Proofs.BandedLU Proofs.BandedComplete Proofs.BandedDet Proofs.BandedDet2 Proofs.BandedDet2Wide Model.Solve Proofs.LUPrim Proofs.LUTab Bridge.Det.
 From mathcomp Require Import all_ssreflect all_algebra all_fingroup.
 Set Implicit Arguments. Unset Strict Implicit. Unset Printing Implicit Defensive.
 Import GRing.Theory.
@@ -119,6 +119,15 @@ exact: (@band_det_abs A FLA B (DetF (bn B)) (@DetF_ext (bn B)) (@DetF_stage (bn 
           PL (@DetF_kernel B) wf m1n).
 Qed.
 
+(* every (n, m1, m2): the determinant of the twin, or (m1 > n) the index panic of the left shift *)
+Theorem band_det_total_lemma (B : banded A) :
+  @wfB A B ->
+  @band_det A B = if Nat.leb (bm1 B) (bn B) then Ok (\det (mx_of (bn B) (@dense_entry A B))) else Panic Index.
+Proof.
+move=> wf; case: Nat.leb_spec => [m1n|nm1]; first exact: band_det_is_det_lemma.
+by have [-> _] := @band_wide_panics_lemma A B wf nm1.
+Qed.
+
 (* padding slots never reach the determinant (over a field, under PivotLaws) *)
 Corollary band_det_same_slots (B B' : banded A) :
   @wfB A B -> (bm1 B <= bn B)%coq_nat -> @same_in_matrix_slots A B B' ->
@@ -162,3 +171,4 @@ Qed.
 Print Assumptions band_det_is_det_lemma.
 Print Assumptions band_det_same_slots.
 Print Assumptions band_det_spec_lemma.
+Print Assumptions band_det_total_lemma.
